@@ -97,7 +97,7 @@ CaseKeys(si) ==
   \cup (IF ~IsLeaf(t) /\ QOK(t) THEN {[k |-> "case", si |-> si, form |-> "q", j |-> 1, q |-> 1]} ELSE {})
   \cup {[k |-> "case", si |-> si, form |-> "t", j |-> j, q |-> 1] : j \in 1..2}
   \cup (IF QOK(t) THEN {[k |-> "case", si |-> si, form |-> "u", j |-> 1, q |-> 1]} ELSE {})
-  \cup (IF Depth(t) = 1 THEN {[k |-> "case", si |-> si, form |-> "v", j |-> j, q |-> 1] : j \in 1..NW(Ways, t)} ELSE {})
+  \cup (IF Depth(t) = 1 THEN {[k |-> "case", si |-> si, form |-> "v", j |-> j, q |-> 1] : j \in 1..Min(NW(Ways, t), Data.vmax)} ELSE {})
   \cup (IF t = Ref1("E") THEN {[k |-> "case", si |-> si, form |-> "p", j |-> 1, q |-> q] : q \in 1..2} ELSE {})
 
 FieldD(id, req, name, t, def) == [name |-> name, id |-> id, req |-> req, type |-> t, def |-> def]
